@@ -32,6 +32,9 @@ const bseqPrelude = `
 
 // Query assembles the SMT-LIB text of an obligation.
 func (o *Obligation) Query(models bool) string {
+	if o.Raw != "" {
+		return o.Raw
+	}
 	fv := o.Func
 	var sb strings.Builder
 	if models {
@@ -45,6 +48,9 @@ func (o *Obligation) Query(models bool) string {
 		sb.WriteString(bseqPrelude)
 	}
 	for _, d := range fv.decls {
+		if d == "" {
+			continue
+		}
 		sb.WriteString(d)
 		sb.WriteString("\n")
 	}
@@ -102,6 +108,9 @@ var solvers = []solverSpec{
 		return []string{"cvc5", "--incremental", fmt.Sprintf("--tlimit-per=%d", t), f}
 	}},
 }
+
+// KeepQueries keeps discharged query files too.
+var KeepQueries = false
 
 // OutDir is where queries and replays are written.
 var OutDir = "/verif/out"
@@ -168,6 +177,9 @@ func Discharge(o *Obligation, timeoutMs int, all bool) *Result {
 		res.Status, res.Solver, res.Output = st, solvers[0].Name, out
 		if !all {
 			res.Time = time.Since(t0).Seconds()
+			if st == "unsat" && !KeepQueries {
+				os.Remove(file)
+			}
 			return res
 		}
 	}
@@ -217,7 +229,7 @@ func Discharge(o *Obligation, timeoutMs int, all bool) *Result {
 		}
 	}
 	res.Time = time.Since(t0).Seconds()
-	if res.Status == "unsat" && !all {
+	if res.Status == "unsat" && !all && !KeepQueries {
 		// keep disk usage low
 		os.Remove(file)
 	}
